@@ -171,17 +171,18 @@ fn continues_type(text: &str) -> bool {
 
 /// Write `value` as a string literal type.
 ///
-/// Strings in annotations have no escape sequences and end at the line end,
-/// so use the quote character that does not occur in the value. A value that
-/// contains both quotes or a line break cannot be written down; it degrades
-/// to the `string` type.
+/// Strings in annotations end at the line end, and a backslash escapes the
+/// character that follows it, so backslashes are doubled and the quote
+/// character that does not occur in the value is used. A value that contains
+/// both quotes or a line break degrades to the `string` type.
 pub fn string_literal_type(value: &str) -> String {
+    let escaped = value.replace('\\', "\\\\");
     if value.contains(['\n', '\r']) {
         "string".to_string()
     } else if !value.contains('"') {
-        format!("\"{}\"", value)
+        format!("\"{}\"", escaped)
     } else if !value.contains('\'') {
-        format!("'{}'", value)
+        format!("'{}'", escaped)
     } else {
         "string".to_string()
     }
